@@ -13,7 +13,7 @@ expand_task = texp.expand_task
 
 
 def main(ctx):
-    depth = 3 if ctx.tier == "quick" else 5
+    depth = 3 if ctx.tier == "quick" else 4
     agg, cov = texp.bfs(ctx, "c05", depth, ctx.tier, PID)
     cov["rule"] = ("breadth-first search over programs of intercepted / pass-through tensor operations from 12 initial quantized tensors; each transition executes the real "
                    "operation and the same operation on float twins; de-duplication on a canonical metadata key; non-trivial transitions = those whose float program is valid")
